@@ -67,7 +67,7 @@ func patternMatches(pat CallPattern, kind, callee string, pkgShort string) bool 
 		return true
 	}
 	// dynamic calls may be written without the dyn: prefix
-	if "dyn:"+pat.Callee == callee {
+	if "dyn:"+pat.Callee == callee || "map:"+pat.Callee == callee {
 		return true
 	}
 	return false
